@@ -34,6 +34,7 @@ func rulesC12(c *Ctx) {
 	// an atom after a sub-query atom is resolved in the enclosing scope again (else the filter is refused)
 	ruleScopePush(c, "C12.SCOPE", "ast")
 	ruleListenerNoEval(c, "C12.NOEVAL")
+	ruleStaleElementPointer(c, "C12.STALEELEM", "zitiql", "ast")
 	ruleC12Prec(c)
 	ruleC12Listener(c)
 	ruleC12Truth(c)
